@@ -12,7 +12,7 @@ Tree0 == [names |-> [n \in {"a", "b", "d"} |-> IF n = "a" THEN 1 ELSE IF n = "d"
 Opens == {Open(nm, of, ap, rt) : nm \in {"a", "b"}, of \in {{}, {"C"}, {"C", "X"}, {"T"}, {"C", "T"}, {"C", "X", "T"}, {"X", "T"}}, ap \in BOOLEAN, rt \in {"r", "rw", ""}} \cup
          {Open("d", {}, FALSE, "r"), Open("d", {"D"}, FALSE, "r"), Open("a", {"D"}, FALSE, "r"), Open("d", {}, FALSE, "rw"), Open("b", {"C"}, FALSE, "w")}
 FdOps == {F("close", fd, 0, 0, <<>>) : fd \in {4, 5}} \cup
-         {F("renumber", fd, to, 0, <<>>) : fd \in {4, 5}, to \in {4, 5, 7}} \cup
+         {F("renumber", fd, to, 0, <<>>) : fd \in {4, 5}, to \in {4, 5, 7, 3, 1}} \cup
          {F("write", fd, 0, 0, d) : fd \in {4, 5}, d \in {<<65>>, <<66, 67>>}} \cup
          {F("pwrite", fd, 0, off, <<68>>) : fd \in {4, 5}, off \in {0, 5}} \cup
          {F("read", fd, n, 0, <<>>) : fd \in {4, 5}, n \in {1, 8}} \cup
@@ -26,7 +26,7 @@ PathOps == {P("unlink", nm, "") : nm \in {"a", "b", "d"}} \cup {P("rename", "a",
            {P("pathsize", nm, "") : nm \in {"a", "b", "d"}} \cup {P("pathtimes", nm, "") : nm \in {"a", "d"}}
 AllOps == Opens \cup FdOps \cup PathOps
 CoreOps == {Open("a", {}, FALSE, "rw"), Open("b", {"C"}, TRUE, "rw"), Open("a", {"T"}, FALSE, "rw"), Open("a", {"C", "X"}, FALSE, "rw")} \cup
-           {F("close", 4, 0, 0, <<>>), F("renumber", 4, 4, 0, <<>>), F("renumber", 4, 5, 0, <<>>), F("renumber", 5, 4, 0, <<>>),
+           {F("close", 4, 0, 0, <<>>), F("renumber", 4, 4, 0, <<>>), F("renumber", 4, 5, 0, <<>>), F("renumber", 5, 4, 0, <<>>), F("renumber", 4, 3, 0, <<>>), F("renumber", 4, 1, 0, <<>>),
             F("write", 4, 0, 0, <<66, 67>>), F("read", 4, 8, 0, <<>>), F("read", 5, 8, 0, <<>>), F("seek", 4, 0, 0, <<>>), F("seek", 4, 2, -1, <<>>),
             F("pwrite", 4, 0, 5, <<68>>), F("setsize", 4, 1, 0, <<>>), F("fdsize", 4, 0, 0, <<>>), F("settimes", 4, 0, 0, <<>>),
             F("setappend", 4, 0, 0, <<>>), Open("d", {"D"}, FALSE, "r"), Open("a", {"C", "X", "T"}, FALSE, "rw")} \cup
